@@ -123,7 +123,7 @@ func (g *G) BuiltinCall(d int) *gen.Node {
 		}
 		return gen.NCall("grok", g.KeyArg(), lit(grokPatterns))
 	case "xml":
-		return gen.NCall("xml", g.KeyArg(), lit([]string{"/a/b", "//b/@id", "/a/text()", "(", "", "/a[", "//*"}), g.KeyArg())
+		return gen.NCall("xml", g.KeyArg(), lit(XPaths), g.KeyArg())
 	case "datetime":
 		return gen.NCall("datetime", g.KeyArg(), lit([]string{"s", "ms", "us", "", "S", "MS", "Ms", "mS", "ns"}), lit([]string{"RFC3339", "ANSIC", "Kitchen", "nope", "", "rfc3339", "RFC822Z", "StampNano"}))
 	case "default_time":
@@ -161,3 +161,11 @@ var ZoneArgs = []string{"+8", "-3:30", "Asia/Shanghai", "UTC", "CST", "+99", "No
 	"utc", "Utc", "asia/shanghai", "ASIA/TOKYO", "Asia/Tokyo", "asia/tokyo", "Local", "local", "Z", "GMT", "EST", "cst", "Europe/London", "europe/london",
 	" +8", "+8 ", "+\u0668", "\x00", "../UTC", "Asia/Shanghai/", "/", ".", ":", "+-8", "America/Argentina/Buenos_Aires",
 	"Asia/ShanghaiAsia/ShanghaiAsia/ShanghaiAsia/ShanghaiAsia/ShanghaiAsia/ShanghaiAsia/ShanghaiAsia/ShanghaiAsia/ShanghaiAsia/ShanghaiAsia/ShanghaiAsia/ShanghaiAsia/ShanghaiAsia/ShanghaiAsia/ShanghaiAsia/ShanghaiAsia/ShanghaiAsia/ShanghaiAsia/Shanghai"}
+
+// XPaths are XPath 1.0 expressions of every form: location paths over every axis, predicates, node tests, unions,
+// and expressions that do not select nodes at all (functions, literals, arithmetic, comparisons), plus malformed ones.
+var XPaths = []string{"/a", "/a/b", "//b", "//b/@id", "/a/@id", "//item[1]", "/a/text()", "//c/text()", "//*[@id='1']", "/nosuch", "//b[2]/c", "(", "", "/a[", "count(//b)", "//b | //c", "/a/b/c/item",
+	"true()", "false()", "concat('a','b')", "string(/a)", "number('1')", "'lit'", "1", "1 + 1", "1 div 0", "not(/a)", "boolean(/a)", "/a = 'x'", "name(/a)", "local-name(//b)", "last()", "position()", "string-length('abc')", "normalize-space(' a ')", "sum(//b)", "floor(1.5)", "substring('abc', 2)", "contains('ab','a')", "starts-with('ab','a')", "translate('a','a','b')",
+	".", "..", "/", "//", "*", "//*", "@*", "//@*", "/a/*[last()]", "/a/b[position()=1]", "//b[@id]", "//b[not(@id)]", "/a/b[c]", "//b[c='t']", "//text()", "//comment()", "//node()", "//processing-instruction()",
+	"ancestor::a", "//c/ancestor::a", "//b/following-sibling::b", "//b/preceding-sibling::*", "//c/parent::b", "/a/descendant::c", "/a/descendant-or-self::*", "//b/self::b", "/a/child::b", "//b/attribute::id", "//b/following::*", "//c/preceding::*", "namespace::*",
+	"(/a/b)[1]", "(//b)[last()]", "/a/b[1]/c[1]", "//b[1][@id='1']", "/a/b | /a/@id", "//b[count(c) > 0]", "//*[name()='b']", "//b[string-length(@id) > 0]", "id('1')", "$v", "/a/b[", "//b[@id=", "a b", "/a//", "///a", "/a/b[0]", "/a/b[-1]", "/a/b[1.5]", "/a/b['x']", "//b[true()]", "//b[false()]", "/a/b[1 div 0]", "concat()", "nosuchfn()", "count()", "/a/nosuch::b", "\x00", "é", "//é", "/a/b/text()[1]", "string()", "true", "/a[b and not(c)]", "//b[. = 't']"}
